@@ -11,4 +11,5 @@ package xpair
 //@   lock Mutex level 20
 //@   guarded_by Mutex: closed sizeQ peer recvQLen sendQLen recvExpire sendExpire bestEffort recvQ sendQ
 //@   immutable: closeQ
+//@   elem_invariant recvQ: !shared(elem)
 //@
